@@ -245,7 +245,10 @@ def error_table(repo):
         return int(m.group(1)) if m else None
 
     def returns(cfile, fn, macro):
-        lines = (gis / cfile).read_text().splitlines()
+        text = (gis / cfile).read_text()
+        # blank out /* ... */ comments (a disabled `return ... __LINE__` sits in one), keeping the line structure
+        text = re.sub(r"/\*.*?\*/", lambda m: re.sub(r"[^\n]", " ", m.group(0)), text, flags=re.S)
+        lines = text.splitlines()
         out, inside, depth = [], False, 0
         for no, ln in enumerate(lines, 1):
             if not inside and re.match(r"\s*long long\s+" + fn + r"\s*\(", ln):
